@@ -8,6 +8,7 @@
 -/
 import OdfModel.Props.C14
 import OdfModel.Xml.Encodable
+import OdfModel.Generated.EscapeSrc
 namespace OdfModel.Props.C01
 open OdfModel OdfModel.Xml OdfModel.Spec OdfModel.Ns
 
@@ -88,5 +89,33 @@ theorem emitted_encodable (tbl : NsTable) (q : QName) (attrs : List (QName × St
   intro c hc
   have h := allXml_render tbl q attrs kids ht hu c hc
   exact ⟨h, isXmlChar_not_surrogate c h⟩
+
+/-! ### The model's constants are the constants in the source text (translator, AST route)
+
+`Generated/EscapeSrc.lean` is rewritten on every run from the SOURCE of odf/element.py / odf/opendocument.py; these
+theorems break when a literal of the encoders is edited (the behavioural route — every code point through the real
+functions — then says on which character). -/
+open OdfModel.Generated.EscapeSrc in
+/-- `_escape` replaces `&`, `<`, `>` — in that order — by the model's `AMP`, `LT`, `GT` -/
+theorem escape_src_agrees : escapeReplaces = [([38], AMP), ([60], LT), ([62], GT)] := by decide
+
+open OdfModel.Generated.EscapeSrc in
+/-- `_quoteattr` adds LF, CR, TAB (in that order) with the model's references, and replaces `"` by the model's `QUOT` -/
+theorem attr_src_agrees :
+    attrEntities = attrEnts.map (fun e => ([e.1], e.2)) ∧ attrReplaces = [([34], QUOT)] := by decide
+
+open OdfModel.Generated.EscapeSrc in
+/-- `Text.toXml` hands the model's `textEnts` to `_sanitize` -/
+theorem text_src_agrees : textEntities = textEnts.map (fun e => ([e.1], e.2)) := by decide
+
+open OdfModel.Generated.EscapeSrc in
+/-- `CDATASection.toXml`: `]]>` is split as in `replCdataEnd`, CR is carried outside the section, the frame is `CDO … CDC` -/
+theorem cdata_src_agrees :
+    cdataReplaces = [(CDC, [93, 93] ++ CDC ++ CDO ++ [62]), ([13], CDC ++ R13 ++ CDO)] ∧ cdataOpen = CDO ∧ cdataClose = CDC := by
+  decide
+
+open OdfModel.Generated.EscapeSrc in
+/-- `_XMLPROLOGUE` is the model's (and the reference parser's) prologue -/
+theorem prologue_src_agrees : prologue = PROLOGUE := by decide
 
 end OdfModel.Props.C01
